@@ -7,7 +7,8 @@ CONSTANTS
   Handles <- A_Handles
   DepSets <- A_DepSets
   HandlerSeqs <- A_HSeqs
-  UpRegs <- A_UpRegs
+  UpProgs <- A_UpProgs
+  CRProg <- A_CR
   QuitOn = TRUE
   QuitDeferred = TRUE
   DefCap = 1
@@ -23,4 +24,5 @@ PROPERTY ExactlyOnce
 PROPERTY FiredForever
 PROPERTY NeverEarly
 PROPERTY LifeLogged
+PROPERTY CROnce
 CHECK_DEADLOCK FALSE
